@@ -371,7 +371,7 @@ pub fn run(ctx: &Ctx) -> Verdict {
     v.explanation = "Recording real functions: the log must contain exactly one invocation of the function registered for the called method (position in the unmock_with list), with `self` and the caller's arguments in the registered order; the call returns the function's result unchanged (awaited for async); without registration the call panics naming Trait::method and no function runs; recursive real functions call back into the same mock, whose counted base-case pattern must verify.".into();
     v.assumptions = vec!["shapes rustc rejects are outside the domain (counted; > 5% = inconclusive)".into()];
     v.subs.push(crate::replay_corpus(ctx, &|sub, case| replay(sub, case)));
-    let n = ctx.tier.pick(640, 12_000) as usize;
+    let n = ctx.tier.pick(1280, 24_000) as usize;
     let batches = n.div_ceil(1600);
     for b in 0..batches {
         let sub = if batches == 1 { "registrations".to_string() } else { format!("registrations-{b}") };
